@@ -13,6 +13,7 @@ fn main() {
     let f: fn(&serde_json::Value) -> serde_json::Value = match engine.as_str() {
         "retryopts" => engines::retryopts::run,
         "filter" => engines::filter::run,
+        "outline" => engines::outline::run,
         "stepmatch" => engines::stepmatch::run,
         other => {
             eprintln!("unknown engine `{other}`");
